@@ -42,6 +42,7 @@ The code shape (`PrepareFlush` condition) is the one regenerated from /repo (Gen
 import LinVerif.Util.Proto
 import LinVerif.Model.NodeRecovery
 import LinVerif.Model.C07Grid
+import LinVerif.Model.C07Fanout
 import LinVerif.Generated.C07
 
 namespace LinVerif.Driver.C07
@@ -168,6 +169,11 @@ def stepLine (n : Node) (ws : List String) : Node × String :=
   | ["recover"] =>
     let n' := runN n [.shared .recover, .shared .rewind]
     (n', showNode n' ++ " " ++ showNodeDurable n')
+  | ["qsync", peer, old] =>   -- fanOutQueue.Sync of the first lane's log holding one more consumer group at ack `peer`
+    match n.head?, peer.toInt?, old.toInt? with
+    | some (_, st), some p, some o =>
+      (n, s!"qack={LinVerif.C07Fanout.sync st.appended o [st.groupAck, p]} " ++ showNode n)
+    | _, _, _ => (n, "bad-op")
   | ["recoverp"] =>    -- recovery of an image taken INSIDE a dictionary flush: positions and data files only
     let n' := runN n [.shared .recover, .shared .rewind]
     (n', showNode n' ++ " " ++ showNodeFiles n')
